@@ -31,17 +31,19 @@ pub fn connective_core() -> Alpha {
 }
 pub fn binder_core() -> Alpha {
     Alpha {
-        leaves: vec![Ast::True, Ast::var("a"), Ast::var("b"), Ast::var("X"), Ast::var("Y")],
+        leaves: vec![Ast::True, Ast::var("a"), Ast::var("b"), Ast::var("X"), Ast::var("Y"), Ast::var("Z")],
         not: true,
         bins: vec![Bin::And, Bin::Or],
         ite: false,
         quants: vec![(true, vec![s("a")]), (false, vec![s("a")]), (true, vec![s("X")]), (false, vec![s("b"), s("a")])],
-        fps: vec![(s("X"), false), (s("X"), true), (s("Y"), false), (s("Y"), true)],
+        fps: vec![(s("X"), false), (s("X"), true), (s("Y"), false), (s("Y"), true), (s("Z"), false)],
         ..Default::default()
     }
 }
 pub fn counting_core() -> Alpha {
-    Alpha { leaves: vec![Ast::True, Ast::var("a"), Ast::var("b"), Ast::var("c")], not: true, bins: vec![Bin::And], ite: false, cmps: ALL_CMPS.to_vec(), nums: vec![s("0"), s("1"), s("2"), s("3")], cv: true, max_list: 3, ..Default::default() }
+    // lean: an empty-list comparison is already a 1-node formula, so the number of 5-node
+    // counting formulas explodes with the number of constants and leaves
+    Alpha { leaves: vec![Ast::True, Ast::var("a"), Ast::var("b")], not: true, bins: vec![Bin::And], ite: false, cmps: ALL_CMPS.to_vec(), nums: vec![s("1"), s("2")], cv: true, max_list: 3, ..Default::default() }
 }
 
 fn check_ast_texts(ctx: &mut Ctx, a: &Ast, salt: u64, all_combos: bool, cli: bool, light: bool) {
@@ -203,11 +205,11 @@ fn run(ctx: &mut Ctx) {
     stream_stratum(ctx, enumerate::full_alpha(), 1, 4, &mut idx, "asts_full_alphabet", 2, if th { 3 } else { 2 }, if th { 99 } else { 4 });
     if th {
         stream_stratum(ctx, connective_core(), 5, 7, &mut idx, "asts_connective_core", 0, 0, 99);
-        stream_stratum(ctx, binder_core(), 5, 6, &mut idx, "asts_binder_core", 0, 0, 99);
+        stream_stratum(ctx, binder_core(), 1, 6, &mut idx, "asts_binder_core", 0, 0, 99);
         stream_stratum(ctx, counting_core(), 5, 5, &mut idx, "asts_counting_core", 0, 0, 99);
     } else {
         stream_stratum(ctx, connective_core(), 5, 5, &mut idx, "asts_connective_core", 0, 0, 99);
-        stream_stratum(ctx, binder_core(), 5, 5, &mut idx, "asts_binder_core", 0, 0, 99);
+        stream_stratum(ctx, binder_core(), 1, 5, &mut idx, "asts_binder_core", 0, 0, 5);
     }
     extreme_constants(ctx);
     crate::cli::cleanup_scratch();
